@@ -108,8 +108,8 @@ def run(tier):
         key = 'C03:%s:%s:%s#%d' % (short(o.fn), o.kind, o.desc, o.ord)
         res.violation(key, 'panic-capable site not discharged: %s (%s) in context %s' % (o.kind + ' ' + o.desc, worst.get('why'), [short(x) for x in worst['context'][:4]]),
                       '%s (%s)' % (o.fn, o.span), 'OBLIGATION(%s)' % o.kind, worst)
-    if len(in_scope) < 300:
-        raise CheckError('floor: obligations in scope %d < 300' % len(in_scope))
+    if len(in_scope) < 250:
+        raise CheckError('floor: obligations in scope %d < 250' % len(in_scope))
     if skipped:
         # a view type that is never constructed has no instances: its accessors are unreachable
         res.assumptions.append('entries skipped because their receiver type is never constructed: %s' % sorted(skipped)[:10])
